@@ -212,6 +212,9 @@ class Interp:
             return v
         if isinstance(v, SBool):
             return v.t
+        if isinstance(v, Opaque) and v.kind == "unknown":
+            self._unk = getattr(self, "_unk", 0) + 1
+            return z3.Bool(f"unknown_truth!{self._unk}")
         if isinstance(v, SInt):
             return v.t != 0
         if isinstance(v, SReal):
@@ -266,6 +269,13 @@ class Interp:
         value kinds."""
         if a is b and not isinstance(a, float):
             return True
+        if (isinstance(a, Opaque) and a.kind == "unknown") or (isinstance(b, Opaque) and b.kind == "unknown"):
+            # a value about which nothing is known, not even its type (an undeclared attribute the class computes):
+            # equal to anything or not -- both are explored
+            if isinstance(a, Opaque) and isinstance(b, Opaque) and a.kind == b.kind:
+                return a.t == b.t
+            self._unk = getattr(self, "_unk", 0) + 1
+            return z3.Bool(f"unknown_eq!{self._unk}")
         if isinstance(a, SOpt) or isinstance(b, SOpt):
             if isinstance(b, SOpt) and not isinstance(a, SOpt):
                 a, b = b, a
